@@ -167,7 +167,7 @@ impl<T> IntoIterator for Oset<T> {
 
     fn into_iter(self) -> /*@[*/(r: /*@]*/Self::IntoIter/*@[*/)/*@]*/
         //@[ C18 into_iter (by value): yields exactly seq()
-        ensures IteratorSpec::remaining(&r) == self.seq(),
+        ensures IteratorSpec::remaining(&r) == self.seq(), IteratorSpec::decrease(&r) is Some,
         //@]
     {
         self.raw.into_iter()
@@ -234,6 +234,28 @@ where
         //@]
     }
 }
+
+//@[ meaning of vstd's (uninterpreted) `into_iter_remaining` for an Oset passed by value: the sequence its
+// verified IntoIterator impl yields (trusted bridge between `yielded` and the into_iter contract above)
+#[verifier::external_body]
+pub broadcast proof fn axiom_yielded_oset<T>(o: Oset<T>)
+    ensures #[trigger] yielded::<T, Oset<T>>(o) == o.seq()
+{}
+
+/// number of elements = cardinality of the set
+pub proof fn lemma_oset_len<T: Ord>(o: Oset<T>)
+    requires lawful::<T>(), o.wf()
+    ensures o.seq().len() == o@.len(), o@.finite()
+{
+    lemma_strictly_sorted_no_dup(o.seq());
+    o.seq().unique_seq_to_set();
+}
+
+pub proof fn lemma_empty_oset<T: Ord>(o: Oset<T>)
+    requires o.seq() =~= Seq::<T>::empty()
+    ensures o.wf(), o@ =~= Set::<T>::empty()
+{}
+//@]
 
 //@[ C18 property lemmas over the contracts
 // equality and ordering of two well-formed sets depend only on their element sets:
